@@ -98,6 +98,23 @@ static void layer2_run(const Problem& p, const Mode& m, double tini, const char*
   if (!s.views_coincide()) violation("Evolve:views-not-realiased", ctx);
 }
 
+// "to the requested tolerance": relative-only control on a tiny state and absolute-only control on a huge state. The
+// problem is homogeneous (no source terms), so scaling the initial state scales the exact solution.
+static void tolerance_run(const Problem& p, const Mode& m, double scale, double rel, double abs_, double accept_rel_to_scale) {
+  Probe s(p, 0.5);
+  s.Set_GSL_step(m.type); s.Set_AdaptiveStep(true); s.Set_rel_error(rel); s.Set_abs_error(abs_); s.Set_h(1e-4);
+  std::vector<double> y0 = scaled(probe_state(p, 1), scale);
+  s.set_flat(y0);
+  count("evaluations"); { uint64_t h = ref::fnv(m.name, strlen(m.name), p.d); h = ref::fnv(&scale, 8, h); h = ref::fnv(&rel, 8, h); distinct(h); }
+  std::string ctx = "{\"layer\":\"tolerance\",\"problem\":" + pjson(p) + ",\"stepper\":" + jstr(m.name) + ",\"state_scale\":" + jnum(scale) + ",\"rel_error\":" + jnum(rel) + ",\"abs_error\":" + jnum(abs_) + "}";
+  try { s.Evolve(0.6); s.Evolve(0.4); }
+  catch (const std::exception& ex) { violation(std::string("Evolve:throws:") + m.name + ":tolerance-run", "{\"case\":" + ctx + ",\"what\":" + jstr(ex.what()) + "}"); return; }
+  std::vector<double> got = s.get_flat(), want = p.exact(y0, 0.5, 1.5);
+  double e = maxdiff(got, want), tol = accept_rel_to_scale * scale;
+  maxstat(std::string("tolerance_run_err/tol:") + m.name, e / tol);
+  if (!(e <= tol)) violation("Evolve:requested-tolerance-not-honoured", "{\"case\":" + ctx + ",\"err\":" + jnum(e) + ",\"accepted\":" + jnum(tol) + "}");
+}
+
 int main(int argc, char** argv) {
   Args ar = parse(argc, argv); quiet_gsl();
   bool th = ar.thorough();
@@ -130,6 +147,14 @@ int main(int argc, char** argv) {
     if ((caseno++ % ar.nshards) != ar.shard) continue;
     Problem p; p.nx = 2; p.d = d; p.nrho = 1; p.nsc = 1; for (int b = 0; b < 5; b++) p.sw[b] = (sw >> b) & 1; p.family = 0; p.kappa = 0.3; p.kappa2 = p.sw[4] ? 0.0 : 0.2;
     layer2_run(p, m, 1.5, "closed-form", ncalls);
+  }
+  // requested tolerances of different kinds (adaptive modes only)
+  for (auto& m : modes) for (int d : {2, 3}) {
+    if (!m.adaptive) continue;
+    if ((caseno++ % ar.nshards) != ar.shard) continue;
+    Problem p; p.nx = 2; p.d = d; p.nrho = 1; p.nsc = 1; bool sw[5] = {true, true, false, true, false}; for (int b = 0; b < 5; b++) p.sw[b] = sw[b]; p.family = 0; p.kappa = 0.3; p.kappa2 = 0.2;
+    tolerance_run(p, m, 1e-10, 1e-9, 1e-200, 1e-5);   // relative control only: a state of size 1e-10 must still be right to ~1e-9 relative
+    tolerance_run(p, m, 1e8, 1e-200, 1e-6, 1e-11);    // absolute control only: a state of size 1e8 must be right to ~1e-6 absolute (1e-3 accepted)
   }
   // family 1: non-commuting, time independent, no source: rho(t) = e^{K tau} rho0 e^{K^dagger tau}
   for (auto& m : modes) for (int nx = 1; nx <= 2; nx++) for (int d = 2; d <= 6; d++) for (int nrho = 1; nrho <= 2; nrho++) for (int sw = 1; sw <= 3; sw++) {
